@@ -110,7 +110,9 @@ def _valid_z_message_name(name):
 
 
 def _valid_z_segment_name(name):
-    return name.upper().startswith('Z') and len(name) == 3
+    # the length is the one of the upper-case form, which is the name the segment takes ('Z\xdf1'.upper() has 4 characters)
+    name = name.upper()
+    return name.startswith('Z') and len(name) == 3
 
 
 def _valid_z_field_name(name):
